@@ -821,10 +821,10 @@ impl CheckImpl for C20 {
         let sigs = acc.sets.get("schedule_signatures").map(|s| s.len()).unwrap_or(0) as u64;
         json!({
             "distinct_nontrivial": sigs,
-            "rule": "One evaluation = one scenario (EVAL: execute_bdd_circuit_multi_thread on a harness-generated circuit; PREP: fhe_uint_prepare_custom_multi_thread on a tiny real BDD key; SHARED: 2-5 harness threads running mixed op lists on one shared Module/keys/ciphertexts) on one of the four backends, executed under the controlled scheduler (strategies serial / random(p) / pct(d) / round-robin, swarm-chosen per run) and compared with the same call at threads=1 without scheduler. distinct_nontrivial = distinct schedule signatures (hash of the thread-id sequence at context switches, per scenario and backend); a run is non-trivial when it spawned at least one thread.",
+            "rule": "One evaluation = one scenario (EVAL: execute_bdd_circuit_multi_thread on a harness-generated circuit; PREP: fhe_uint_prepare_custom_multi_thread on a tiny real BDD key; WORD: the word-level `<op>_multi_thread` wrappers; SHARED: 2-5 harness threads running mixed op lists on one shared Module/keys/ciphertexts; MIX: 2-4 harness threads running op lists drawn from the whole C12 inventory on the Module the inventory shares per ring degree) on one of the four backends, executed under the controlled scheduler (strategies serial / random(p) / pct(d) / round-robin, swarm-chosen per run) and compared with the same call at threads=1 without scheduler. distinct_nontrivial = distinct schedule signatures (hash of the thread-id sequence at context switches, per scenario and backend); a run is non-trivial when it spawned at least one thread.",
             "assumptions": [
                 "preemption only at hook points: every scratch carve (take_slice), every work item, spawn/join edges",
-                "one thread runs at a time, so executions are sequentially consistent; data races that do not change bytes are only visible to the DISJOINT monitor here (and to Miri on the reference backends, see miri.sh)",
+                "one thread runs at a time, so executions are sequentially consistent; data races that do not change bytes are only visible to the DISJOINT monitor here and to engine B (Miri: EVAL / SHARED / PREP / MIX on the reference backends, PAIRS on all four; see secondary_engine)",
                 "reference = the library's own single-threaded path on the same inputs"
             ],
             "extra": {
